@@ -20,6 +20,27 @@ On(p) == p \in Enabled
 (* A clause group is a set of <<name, holds>> pairs; a verdict is the set of names that fail. *)
 Failed(group) == { c[1] : c \in { d \in group : ~d[2] } }
 
+(* Membership of emitted leaves in declared leaf specs (used by C01, C15). *)
+LeafOK(lf, dl) ==
+  /\ lf.path = dl.path
+  /\ lf.dtype = dl.dtype
+  /\ lf.shape = dl.shape
+LeafBounds(lf, dl) ==
+  \/ lf.empty
+  \/ /\ ~lf.nan
+     /\ (dl.has_min => lf.lo >= dl.min)
+     /\ (dl.has_max => lf.hi <= dl.max)
+     /\ (dl.elementwise =>                      \* per-element bounds: full data is logged for these leaves
+           /\ "data" \in DOMAIN lf
+           /\ Len(lf.data) = Len(dl.min_data)
+           /\ \A j \in 1..Len(lf.data) : dl.min_data[j] <= lf.data[j] /\ lf.data[j] <= dl.max_data[j])
+C01Leaves(lvs, dls) ==
+  { <<"C01.obs_structure", Len(lvs) = Len(dls)
+        /\ \A j \in 1..Len(lvs) : j <= Len(dls) => lvs[j].path = dls[j].path>>,
+    <<"C01.obs_leaf_shape", \A j \in 1..Len(lvs) : j <= Len(dls) => lvs[j].shape = dls[j].shape>>,
+    <<"C01.obs_leaf_dtype", \A j \in 1..Len(lvs) : j <= Len(dls) => lvs[j].dtype = dls[j].dtype>>,
+    <<"C01.obs_leaf_bounds", \A j \in 1..Len(lvs) : j <= Len(dls) => LeafBounds(lvs[j], dls[j])>> }
+
 Report(i, rej) == IF rej = {} THEN TRUE ELSE PrintT(<<"REJECT", i, rej>>)
 (* Judge line i given its clause set cs: count it as applicable when some clause's antecedent
    held (groups return {} when they do not apply), print the applicable marker and rejects. *)
